@@ -22,7 +22,7 @@ from vlib import refmath as R, ntref as T
 ID = 'C25'
 LEVEL = 'exploration'
 RULE = ('exhaustive cells: every x in [-300, 5000] (thorough [-1000, 120000]) through all unary helpers and '
-        'iroot(x, 1..8), every pair in [-60, 60]^2 (thorough [-160, 160]^2) through gcdext/invert/jacobi/'
+        'iroot(x, n) for ten exponents n, every pair in [-60, 60]^2 (thorough [-160, 160]^2) through gcdext/invert/jacobi/'
         'legendre/kronecker/powmod, ratrec for every y <= 40 (thorough 90), x in [-y-2, 2y+2], N, D in a grid '
         'incl. omitted; generated: structured integers up to 2^512 (primes, semiprimes, Carmichael numbers, '
         'strong pseudoprimes, p(2p-1), perfect powers +-1, prime powers around the 2^10 split, factored symbol '
@@ -39,7 +39,7 @@ ASSUMPTIONS = ['oracle primality for large numbers: vlib/refmath.is_prime (deter
                'legendre(x, y) is only specified for odd primes y (and raises for y even or <= 0)',
                'powmod with negative modulus: only congruence and |r| < |m| are required',
                'is_square(x < 0): False or ValueError both accepted (gmpy2 returns False)']
-CASE_TIMEOUT = 150
+CASE_TIMEOUT = 600  # generous: the machine may be heavily shared; typical cases take milliseconds
 
 boot(numpy=False)
 from mpyc import gmpy  # noqa: E402
@@ -89,7 +89,7 @@ def _int(v, what):
 
 # ------------------------------------------------------------------------------ per-function checks
 # each returns the number of evaluations that produced a value (non-trivial evaluations)
-def chk_primes(x, big=False):
+def chk_primes(x):
     nt = 0
     isp = R.is_prime(x)
     nt += expect(gmpy.is_prime, (x,), ('ok', isp))
@@ -309,7 +309,7 @@ def _g_sym(draw):
     rep = draw(st.lists(st.integers(1, 3), min_size=len(ps), max_size=len(ps)))
     return dict(kind='g-sym', ps=ps, rep=rep, sgn=draw(st.sampled_from([1, 1, 1, -1, -1, 0])),
                 e2=draw(st.sampled_from([0, 0, 0, 1, 2, 3, 4, 7])),
-                xform=draw(st.sampled_from(['rand', 'rand', 'neg', 'square', 'mult', 'small', 'near'])),
+                xform=draw(st.sampled_from(['rand', 'rand', 'neg', 'square', 'mult', 'small', 'near', 'unit'])),
                 x=draw(_bigint(300)), seed=draw(_SEED))
 
 
@@ -463,6 +463,8 @@ def _run_g_sym(c):
         x = x * x % y if y > 1 else x * x
     elif xf == 'mult' and primes:
         x = x * primes[x % len(primes)]
+    elif xf == 'unit':
+        x = (-1, 1, 0, 2, -2)[x % 5]
     elif xf == 'small':
         x = x % 19 - 9
     elif xf == 'near':
@@ -557,7 +559,17 @@ def _run_g_ratrec(c):
         if y <= 2 * N * D:
             if call(gmpy.ratrec, x, y, N, D)[0] != 'exc':
                 raise Fail(f'ratrec({x}, {y}, {N}, {D}) accepted although 2ND >= y')
-            return labels + ['refused'], 0
+            nt = 0
+            if y == 2 * N * D and N > 0 and D >= 2:
+                # with D omitted the largest valid D' = D - 1 >= 1 exists: n/1 is the solution for x = n
+                n = T.sign(c['n']) * (abs(c['n']) % (N + 1))
+                nt += chk_ratrec(n + c['shift'] * y, y, N, None, sols=[(n, 1)])
+                labels.append('valid-omitted')
+            if y == 2 * N * D and N >= 2:
+                n = T.sign(c['n']) * (abs(c['n']) % N)  # |n| <= N' = N - 1
+                nt += chk_ratrec(n + c['shift'] * y, y, None, D, sols=[(n, 1)])
+                labels.append('valid-omitted')
+            return labels + ['refused'], nt
         if D > 20000:
             # x = n/1 with |n| <= N is a solution
             n = T.sign(c['n']) * (abs(c['n']) % (N + 1))
